@@ -674,3 +674,141 @@ func reaches(from, to *ssa.BasicBlock) bool {
 }
 
 func (a *Analysis) Pos(p token.Pos) token.Position { return a.Prog.Fset.Position(p) }
+
+// ElementStore is a store into a field of an object that the storing function did not allocate
+// itself and whose type travels through the module's channels as a pointer.
+type ElementStore struct {
+	Fn    *ssa.Function
+	Pos   token.Pos
+	Type  string // element type, e.g. "asset.Snapshot"
+	Field string
+	From  string // where the pointer came from: "received from a channel", "parameter p", …
+}
+
+// ElementStores finds, in the module's functions, stores through pointers of the element types
+// (named struct types T such that some channel in the module carries *T) to objects that are not
+// allocated in the storing function. Pointers sent on a channel are shared by every consumer of
+// every copy of the stream (helper.Duplicate forwards the same pointer), so such a store is a
+// write to memory other goroutines read.
+func (a *Analysis) ElementStores() []ElementStore {
+	// element types
+	elem := map[*types.Named]bool{}
+	var note func(t types.Type)
+	note = func(t types.Type) {
+		if ch, ok := t.Underlying().(*types.Chan); ok {
+			if p, ok := ch.Elem().(*types.Pointer); ok {
+				if n, ok := p.Elem().(*types.Named); ok {
+					if _, isStruct := n.Underlying().(*types.Struct); isStruct {
+						elem[n.Origin()] = true
+					}
+				}
+			}
+		}
+	}
+	for _, fn := range a.Funcs {
+		if !a.inModule(fn) {
+			continue
+		}
+		for _, p := range fn.Params {
+			note(p.Type())
+		}
+		for _, b := range fn.Blocks {
+			for _, ins := range b.Instrs {
+				if v, ok := ins.(ssa.Value); ok {
+					note(v.Type())
+				}
+			}
+		}
+	}
+	var local func(v ssa.Value, seen map[ssa.Value]bool) (bool, string)
+	local = func(v ssa.Value, seen map[ssa.Value]bool) (bool, string) {
+		if seen[v] {
+			return true, ""
+		}
+		seen[v] = true
+		switch x := v.(type) {
+		case *ssa.Alloc:
+			return true, ""
+		case *ssa.Phi:
+			for _, e := range x.Edges {
+				if ok, why := local(e, seen); !ok {
+					return false, why
+				}
+			}
+			return true, ""
+		case *ssa.ChangeType:
+			return local(x.X, seen)
+		case *ssa.UnOp:
+			if x.Op == token.ARROW {
+				return false, "received from a channel"
+			}
+			if x.Op == token.MUL {
+				if al, ok := x.X.(*ssa.Alloc); ok {
+					// a local variable holding the pointer: everything stored into it must be local
+					for _, ref := range *al.Referrers() {
+						if st, ok := ref.(*ssa.Store); ok && st.Addr == al {
+							if ok, why := local(st.Val, seen); !ok {
+								return false, why
+							}
+						}
+					}
+					return true, ""
+				}
+				return false, "loaded from " + x.X.Name()
+			}
+		case *ssa.Extract:
+			if u, ok := x.Tuple.(*ssa.UnOp); ok && u.Op == token.ARROW {
+				return false, "received from a channel"
+			}
+			return false, "a result of " + x.Tuple.Name()
+		case *ssa.Parameter:
+			return false, "parameter " + x.Name()
+		case *ssa.FreeVar:
+			return false, "captured variable " + x.Name()
+		case *ssa.Call:
+			// a constructor of the module returning a fresh object
+			if c := x.Common().StaticCallee(); c != nil {
+				if s := a.SummaryOf(c); s != nil && len(s.Rets) == 0 {
+					return true, ""
+				}
+			}
+			return false, "the result of a call"
+		}
+		return false, "a value of unknown origin"
+	}
+	var out []ElementStore
+	for _, fn := range a.Funcs {
+		if !a.inModule(fn) {
+			continue
+		}
+		for _, b := range fn.Blocks {
+			for _, ins := range b.Instrs {
+				st, ok := ins.(*ssa.Store)
+				if !ok {
+					continue
+				}
+				fa, ok := st.Addr.(*ssa.FieldAddr)
+				if !ok {
+					continue
+				}
+				p, ok := fa.X.Type().(*types.Pointer)
+				if !ok {
+					continue
+				}
+				n, ok := p.Elem().(*types.Named)
+				if !ok || !elem[n.Origin()] {
+					continue
+				}
+				if isLocal, why := local(fa.X, map[ssa.Value]bool{}); !isLocal {
+					fld := ""
+					if stt, ok := n.Underlying().(*types.Struct); ok && fa.Field < stt.NumFields() {
+						fld = stt.Field(fa.Field).Name()
+					}
+					out = append(out, ElementStore{Fn: fn, Pos: st.Pos(), Type: n.Obj().Pkg().Name() + "." + n.Obj().Name(), Field: fld, From: why})
+				}
+			}
+		}
+	}
+	sort.Slice(out, func(i, j int) bool { return out[i].Pos < out[j].Pos })
+	return out
+}
